@@ -7,4 +7,6 @@ require (
 	go.nanomsg.org/mangos/v3 v3.4.2
 )
 
+require github.com/gdamore/optopia v0.2.0 // indirect
+
 replace go.nanomsg.org/mangos/v3 => /repo
